@@ -11,68 +11,94 @@ import z3
 NCPU = int(os.environ.get("VERIF_JOBS", "0")) or min(16, os.cpu_count() or 4)
 
 
-def _solve_z3(smt2, timeout_ms, seed=0, tactic=None):
-    ctx = z3.Context()
-    s = z3.Solver(ctx=ctx) if tactic is None else z3.Tactic(tactic, ctx=ctx).solver()
-    s.set("timeout", int(timeout_ms))
-    try:
-        s.set("random_seed", seed)
-    except z3.Z3Exception:
-        pass
-    s.from_string(smt2)
-    t = time.time()
-    try:
-        r = s.check()
-    except z3.Z3Exception as e:
-        return "unknown", time.time() - t, "z3-exception:%s" % str(e)[:80]
-    reason = ""
-    if r == z3.unknown:
-        try:
-            reason = s.reason_unknown()
-        except z3.Z3Exception:
-            reason = "?"
-    return str(r), time.time() - t, reason
+Z3_BIN = os.path.join(os.path.dirname(os.path.dirname(os.path.abspath(__file__))), ".venv", "bin", "z3")
+if not os.path.exists(Z3_BIN):
+    Z3_BIN = "z3-new"
+MEM_MB = int(os.environ.get("VERIF_SOLVER_MEM_MB", "3500"))
 
 
-def _solve_cvc5(smt2, timeout_ms):
+def _run_cli(cmd, path, timeout_s):
     t = time.time()
-    text = smt2
-    if "(set-logic" not in text:
-        text = "(set-logic ALL)\n" + text
-    with tempfile.NamedTemporaryFile("w", suffix=".smt2", delete=False) as f:
-        f.write(text)
-        path = f.name
     try:
-        p = subprocess.run(["/usr/bin/cvc5", "--tlimit=%d" % int(timeout_ms), "--fp-exp", path],
-                           capture_output=True, text=True, timeout=timeout_ms / 1000.0 + 10)
-        out = p.stdout.strip().splitlines()
+        p = subprocess.run(cmd + [path], capture_output=True, text=True, timeout=timeout_s + 5)
+        out = (p.stdout or "").strip().splitlines()
         r = out[0].strip() if out else "unknown"
+        reason = " ".join(out[1:3])[:160] + (p.stderr or "")[:160]
         if r not in ("sat", "unsat"):
+            reason = (r + " " + reason)[:200]
             r = "unknown"
-        return r, time.time() - t, (p.stderr or "")[:120]
-    except (subprocess.TimeoutExpired, OSError) as e:
-        return "unknown", time.time() - t, "cvc5:%s" % e
+        return r, time.time() - t, reason
+    except subprocess.TimeoutExpired:
+        return "unknown", time.time() - t, "hard timeout"
+    except OSError as e:
+        return "unknown", time.time() - t, "oserror %s" % e
+
+
+def _race(cmds, timeout_s):
+    """Run several solver processes on the same query; first definitive answer wins, the rest are killed."""
+    t = time.time()
+    procs = []
+    for name, cmd in cmds:
+        procs.append((name, subprocess.Popen(cmd, stdout=subprocess.PIPE, stderr=subprocess.PIPE, text=True)))
+    result, backend, reasons = "unknown", "", []
+    live = list(procs)
+    try:
+        while live and time.time() - t < timeout_s + 5:
+            for name, p in list(live):
+                if p.poll() is not None:
+                    live.remove((name, p))
+                    out = (p.stdout.read() or "").strip().splitlines()
+                    r = out[0].strip() if out else "unknown"
+                    if r in ("sat", "unsat"):
+                        return r, time.time() - t, name, ""
+                    reasons.append("%s: %s" % (name, " ".join(out[:2])[:100] or (p.stderr.read() or "")[:100]))
+            time.sleep(0.02)
+        if live:
+            reasons.append("hard timeout")
+        return "unknown", time.time() - t, "+".join(n for n, _ in procs), " | ".join(reasons)
     finally:
-        os.unlink(path)
+        for name, p in procs:
+            if p.poll() is None:
+                p.kill()
+            try:
+                p.wait(timeout=5)
+            except Exception:
+                pass
+            for fh in (p.stdout, p.stderr):
+                try:
+                    fh.close()
+                except Exception:
+                    pass
 
 
 def solve_one(job):
+    """Each query runs in its own solver process(es) under a hard wall-clock and memory limit.
+    Floating-point queries race cvc5 against z3 (cvc5's FP bit-blaster is usually an order of magnitude faster);
+    all others go to z3 first and cvc5 takes z3's unknowns."""
     idx, smt2, timeout_ms, use_cvc5 = job
-    r, secs, reason = _solve_z3(smt2, timeout_ms)
-    backend = "z3-%s" % z3.get_version_string()
-    if r == "unknown":
-        # second opinion(s): a different z3 seed, then cvc5
-        r2, s2, reason2 = _solve_z3(smt2, timeout_ms, seed=17)
-        secs += s2
-        if r2 != "unknown":
-            r, reason = r2, reason2
-            backend += "(seed 17)"
-        elif use_cvc5:
-            r3, s3, reason3 = _solve_cvc5(smt2, timeout_ms)
+    tsec = max(1, int(timeout_ms / 1000))
+    with tempfile.NamedTemporaryFile("w", suffix=".smt2", delete=False) as f:
+        f.write(smt2 if "(set-logic" in smt2 else "(set-logic ALL)\n" + smt2)
+        path = f.name
+    z3cmd = [Z3_BIN, "-T:%d" % tsec, "-memory:%d" % MEM_MB, path]
+    cvccmd = ["/usr/bin/cvc5", "--tlimit=%d" % (tsec * 1000), "--fp-exp", path]
+    try:
+        if "FloatingPoint" in smt2 and use_cvc5:
+            return (idx,) + _race([("z3-5.1.0", z3cmd), ("cvc5-1.0.3", cvccmd)], tsec)
+        r, secs, backend, reason = _race([("z3-5.1.0", z3cmd)], tsec)
+        if r == "unknown" and use_cvc5:
+            r3, s3, b3, reason3 = _race([("cvc5-1.0.3", cvccmd)], tsec)
             secs += s3
             if r3 != "unknown":
-                r, reason, backend = r3, reason3, "cvc5-1.0.3"
-    return idx, r, secs, backend, reason
+                r, reason, backend = r3, reason3, b3
+            else:
+                reason = "%s | %s" % (reason, reason3)
+        return idx, r, secs, backend, reason
+    finally:
+        try:
+            os.unlink(path)
+        except OSError:
+            pass
 
 
 def discharge(obligations, timeout_ms=30000, use_cvc5=True, jobs=None):
@@ -90,9 +116,8 @@ def discharge(obligations, timeout_ms=30000, use_cvc5=True, jobs=None):
     if len(work) == 1 or jobs == 1:
         results = [solve_one(w) for w in work]
     else:
-        mp = multiprocessing.get_context("fork")
-        with cf.ProcessPoolExecutor(max_workers=min(jobs, len(work)), mp_context=mp) as ex:
-            results = list(ex.map(solve_one, work, chunksize=1))
+        with cf.ThreadPoolExecutor(max_workers=min(jobs, len(work))) as ex:
+            results = list(ex.map(solve_one, work))
     for idx, r, secs, backend, reason in results:
         ob = obligations[idx]
         ob.result, ob.seconds, ob.backend = r, secs, backend
@@ -109,22 +134,69 @@ def obligation_smt2(ob, ack=True):
     return s.to_smt2()
 
 
-def get_model(ob, timeout_ms=30000, extra=()):
-    """Re-solve a failed obligation in this process to obtain a model (z3)."""
+def _api_model(fs, timeout_ms):
     s = z3.Solver()
     s.set("timeout", int(timeout_ms))
-    for p in ob.pc:
-        s.add(p)
-    s.add(z3.Not(ob.goal))
-    if extra:
-        s.push()
-        for e in extra:
-            s.add(e)
-        if s.check() == z3.sat:
-            return s.model()
-        s.pop()
+    for f in fs:
+        s.add(f)
     if s.check() == z3.sat:
         return s.model()
+    return None
+
+
+def _cvc5_scalar_values(fs, timeout_s):
+    """Ask cvc5 for a model of the (ackermannised) query; return z3 equalities  const == value  for scalar constants."""
+    import re
+    subs = []
+    afs = ackermannize(fs, subs_out=subs)
+    s = z3.Solver()
+    for f in afs:
+        s.add(f)
+    text = "(set-logic ALL)\n(set-option :produce-models true)\n" + s.to_smt2() + "\n(get-model)\n"
+    with tempfile.NamedTemporaryFile("w", suffix=".smt2", delete=False) as f:
+        f.write(text)
+        path = f.name
+    try:
+        p = subprocess.run(["/usr/bin/cvc5", "--tlimit=%d" % (timeout_s * 1000), "--fp-exp", path],
+                           capture_output=True, text=True, timeout=timeout_s + 10)
+    except subprocess.TimeoutExpired:
+        return None
+    finally:
+        os.unlink(path)
+    out = p.stdout
+    if not out.startswith("sat"):
+        return None
+    decls, eqs = [], []
+    for m in re.finditer(r"\(define-fun (\S+) \(\) (\(_ FloatingPoint 11 53\)|Int|Real|Bool) (.*)\)\s*$", out, re.M):
+        name, sort, val = m.group(1), m.group(2), m.group(3)
+        decls.append("(declare-fun %s () %s)" % (name, sort))
+        eqs.append("(assert (= %s %s))" % (name, val))
+    if not decls:
+        return None
+    try:
+        parsed = z3.parse_smt2_string("\n".join(decls + eqs))
+    except z3.Z3Exception:
+        return None
+    # map ackermann constants back to the select terms they stand for
+    back = [(c, sel) for sel, c in subs]
+    return [z3.substitute(e, *back) if back else e for e in parsed]
+
+
+def get_model(ob, timeout_ms=30000, extra=()):
+    """Re-solve a failed obligation in this process to obtain a model: z3 API first; if it does not answer quickly,
+    cvc5 supplies values for the scalar inputs and z3 completes the model with those pinned."""
+    fs = list(ob.pc) + [z3.Not(ob.goal)]
+    quick = min(int(timeout_ms), 15000)
+    if extra:
+        m = _api_model(fs + list(extra), quick)
+        if m is not None:
+            return m
+    m = _api_model(fs, quick)
+    if m is not None:
+        return m
+    pins = _cvc5_scalar_values(fs, max(10, int(timeout_ms / 1000)))
+    if pins:
+        return _api_model(fs + list(pins), timeout_ms)
     return None
 
 
@@ -159,7 +231,7 @@ def _contains_var(e, cache):
     return r
 
 
-def ackermannize(formulas, rounds=4):
+def ackermannize(formulas, rounds=4, subs_out=None):
     """Replace reads ``A[t]`` of array *constants* that are only ever read at ground indices by fresh constants
     plus the congruence axioms (Ackermann's reduction; equisatisfiable).  z3's combination of the array/UF
     theory with mixed integer-real arithmetic is incomplete on our heap reads; the reduction makes those
@@ -210,6 +282,8 @@ def ackermannize(formulas, rounds=4):
                 for j in range(i + 1, len(sels)):
                     extra.append(z3.Implies(sels[i].arg(1) == sels[j].arg(1), fresh[i] == fresh[j]))
         # substitute innermost-last: z3.substitute handles simultaneous substitution of distinct terms
+        if subs_out is not None:
+            subs_out.extend(subs)
         fs = [z3.substitute(f, *subs) for f in fs] + [z3.substitute(x, *subs) for x in extra]
         fs = [z3.simplify(f) for f in fs]
     return fs
